@@ -199,6 +199,7 @@ structure DriverState where
   verbose : Bool := false
   spec : Spec.Checker := {}
   logs : List (Nat × RaftLog) := []
+  ros : List (Nat × ReadOnly) := []
 
 def DriverState.get (st : DriverState) (k : Nat) : Option Slot := Quorum.lookup st.nodes k
 def DriverState.put (st : DriverState) (k : Nat) (s : Slot) : DriverState :=
@@ -337,6 +338,25 @@ def fmtSE {α : Type} (f : α → String) : Except StorageErr α → String
   | .ok a => f a
   | .error e => e.toString
 
+/-- unit-level operations on the read-only bookkeeping (read_only.go) -/
+def roOp (ro : ReadOnly) (op : String) (args : Tok) : String × ReadOnly :=
+  match op, args with
+  | "add", commit :: rest =>
+    match pMsg rest with
+    | some (m, _) => ("ok", ro.addRequest (natOrZero commit) m)
+    | none => ("bad-op", ro)
+  | "ack", [frm, ctx] =>
+    match ro.recvAck (natOrZero frm) (optBytes ctx) with
+    | .ok ro' => ("ok", ro')
+    | .error _ => ("panic", ro)
+  | "adv", [c0, c1] =>
+    match ro.maybeAdvance (idList c0) (idList c1) with
+    | .ok (ro', rel) => ("[" ++ ",".intercalate (rel.map fun rq => s!"{rq.index}@{fmtMessage rq.req}") ++ "]", ro')
+    | .error _ => ("panic", ro)
+  | "hb", [] => (fmtOptBytes ro.heartbeatCtx, ro)
+  | _, _ => ("bad-op", ro)
+
+
 def logOp (l : RaftLog) (op : String) (args : Tok) : String × RaftLog :=
   let n (s : String) := natOrZero s
   let pz {α : Type} (r : P α) (f : α → String × RaftLog) : String × RaftLog :=
@@ -421,6 +441,15 @@ def step (st : DriverState) (line : String) : DriverState × String :=
     | some l =>
       let (out, l') := logOp l op rest
       ({ st with logs := (natOrZero k, l') :: st.logs.filter (·.1 != natOrZero k) }, s!"{out} | {fmtLog l'} | {fmtStorage l'.storage}")
+  | ["ro", k, "new"] =>
+    let ro : ReadOnly := {}
+    ({ st with ros := (natOrZero k, ro) :: st.ros.filter (·.1 != natOrZero k) }, s!"ok | {RawNode.fmtReadOnly ro}")
+  | "ro" :: k :: op :: rest =>
+    match Quorum.lookup st.ros (natOrZero k) with
+    | none => (st, "no-ro")
+    | some ro =>
+      let (out, ro') := roOp ro op rest
+      ({ st with ros := (natOrZero k, ro') :: st.ros.filter (·.1 != natOrZero k) }, s!"{out} | {RawNode.fmtReadOnly ro'}")
   | ["verbose", v] => ({ st with verbose := v == "1" }, "ok")
   | ["sp", "init", c0, c1] =>
     ({ st with spec := { cfg := Spec.jointCfg (idList c0) (idList c1) } }, "ok")
